@@ -451,7 +451,9 @@ fn oracle_c11(env: &Env, txs: &[Transaction], acc: &mut Acc) -> Vec<Obs> {
                         y.divtax = Rat::zero();
                     }
                     let d = view::diff_reports(&va, &vb, Level::L3, &CmpOpts { label_a: "with-dividend", label_b: "without", ..Default::default() });
-                    res.extend(with_ctx(obs_from(d).into_iter().map(|mut o| { o.clause = "dividend-changes-figures".into(); o }).collect(), ctx.clone(), None));
+                    // figures (per-disposal quantity, proceeds, cost, gain; year totals; holdings) and the partition of a
+                    // disposal into legs are separate clauses
+                    res.extend(with_ctx(obs_from(d).into_iter().map(|mut o| { o.clause = if o.clause.starts_with("L1") { "dividend-changes-figures".into() } else { "dividend-changes-leg-partition".into() }; o }).collect(), ctx.clone(), None));
                 }
                 (Outcome::Err { .. }, Outcome::Err { .. }) => {}
                 _ => res.extend(with_ctx(vec![ob("dividend-changes-acceptance", "a DIVIDEND line changes whether the ledger is accepted".into())], ctx.clone(), None)),
@@ -996,6 +998,27 @@ pub fn oracle(prop: &str, env: &Env, txs: &[Transaction], acc: &mut Acc, tier: T
         "C09" => oracle_c09(env, txs, acc),
         "C10" => oracle_c10(env, txs, acc),
         "C11" => oracle_c11(env, txs, acc),
+        // a DIVIDEND line inserted at every position of the ledger as written (between any two lines, before the
+        // first, after the last), dated and named like its neighbour: only the dividend totals may change
+        "C11div" => {
+            let mut v = vec![];
+            if txs.is_empty() {
+                return v;
+            }
+            for g in 0..=txs.len() {
+                let nb = if g > 0 { &txs[g - 1] } else { &txs[0] };
+                let mut with: Vec<Transaction> = txs[..g].to_vec();
+                with.push(alpha::dividend(nb.date, &nb.ticker, "3", "1"));
+                with.extend_from_slice(&txs[g..]);
+                acc.bump("dividend-line-inserted");
+                acc.bump("transitions");
+                let mut a2 = Acc::new();
+                let obs: Vec<Obs> = oracle_c11(env, &with, &mut a2).into_iter().filter(|o| o.clause.starts_with("dividend-") || o.clause == "panic").collect();
+                acc.validated += 1;
+                v.extend(with_ctx(obs, json!({"variant": "dividend line inserted", "ledger_as_run": dsl_text(&with)}), Some(&with)));
+            }
+            v
+        }
         "C12" => oracle_c12(env, txs, acc, if tier == Tier::Quick { 1 } else { 2 }, false),
         // two-line continuations (purchases and sales only) of prefixes that are also run in their other line orders
         "C12deep" => oracle_c12(env, txs, acc, 2, true),
@@ -1008,7 +1031,7 @@ pub fn oracle(prop: &str, env: &Env, txs: &[Transaction], acc: &mut Acc, tier: T
 fn visit(prop: &str, ctx: &Ctx, env: &Env, acc: &mut Acc, txs: &[Transaction], profile: &str) {
     // conservation / arithmetic laws hold in every line order: also run an order in which rows of one
     // (date, security, kind) are not adjacent (the canonical order keeps them adjacent, where the tool merges them)
-    if matches!(prop, "C01" | "C02" | "C03" | "C09" | "C11" | "C12deep" | "C12pad") {
+    if matches!(prop, "C01" | "C02" | "C03" | "C09" | "C11" | "C11div" | "C12deep" | "C12pad") {
         for il in profiles::other_orders(txs) {
             acc.bump("interleaved-line-order-also-run");
             visit_one(prop, ctx, env, acc, &il, profile);
@@ -1030,7 +1053,7 @@ fn visit_one(prop: &str, ctx: &Ctx, env: &Env, acc: &mut Acc, txs: &[Transaction
             c["explored_state"] = json!(dsl_text(txs));
         }
         let input = Input::Ledger(o.input.unwrap_or_else(|| txs.to_vec()));
-        acc.violation(&ctx.findings, if prop.starts_with("C12") { "C12" } else { prop }, Violation { clause: o.clause, input, detail: o.detail, context: c });
+        acc.violation(&ctx.findings, if prop.starts_with("C12") { "C12" } else if prop.starts_with("C11") { "C11" } else { prop }, Violation { clause: o.clause, input, detail: o.detail, context: c });
     }
 }
 
@@ -1234,6 +1257,10 @@ pub fn c11(tier: Tier) -> i32 {
     explore_alpha("C11", &mut ctx, &env, &profiles::events_two_adj(), n_ev + 2, &mut acc);
     explore_alpha("C11", &mut ctx, &env, &profiles::events_fx(), n_ev, &mut acc);
     explore_alpha("C11", &mut ctx, &env, &profiles::events_same_day(), n_ev + 1, &mut acc);
+    // a DIVIDEND line between any two lines of ledgers with several fills per day
+    explore_alpha("C11div", &mut ctx, &env, &crate::perm::fills_alphabet(), n_ev, &mut acc);
+    explore_alpha("C11div", &mut ctx, &env, &profiles::two_sec_fills(), n_ev, &mut acc);
+    ctx.require(acc.get("dividend-line-inserted") > 0, "no dividend line was inserted");
     // costs within a fraction of a penny of zero, on and around the half-penny midpoints
     explore_alpha("C11", &mut ctx, &env, &profiles::events_penny(), n_ev + 3, &mut acc);
     for k in ["adjustment-differential(position>0)", "adjustment-before-any-acquisition", "dividend-differential", "cancelling-pair-inserted", "bracket:return-absorbable", "bracket:return-exceeds-all-expenditure"] {
